@@ -863,8 +863,13 @@ func init() {
 				}
 				return map[string]interface{}{"stats": stats, "mismatches": mism, "by_key": byKey}
 			}
-			// random family
+			// random family (a prefix of the seeded sequence if the machine is too slow for all of it: the verdict never depends on load)
+			began := time.Now()
 			for i := 0; i < in.N; i++ {
+				if i%512 == 0 && time.Since(began) > 180*time.Second {
+					stats["stopped_early"] = i
+					break
+				}
 				switch in.Kind {
 				case "fuzzvalue":
 					add(checkValue(randValue(rng, 4), stats))
